@@ -7,6 +7,10 @@ HOOK_COMMITS = []
 
 # id -> (technique, level text, level note, design ref)
 CLAIMED = {
+ "C11": ("runtime monitor: table-driven exhaustive class grid (one fresh interface per cell) judged by a decision table over socket deltas and emitted frames; 802.15.4 PAN filter part",
+         "Exploration by runtime monitoring with an exhaustive finite grid: 64 000 cells = medium/link-layer destination (IP; Ethernet ours/other station/broadcast/multicast) x IPv4/IPv6 x 8 source classes x 10 destination classes x 10 protocols x 4 socket configurations x group joined, every cell visited in both tiers (thorough: 8 seeds per cell), plus 144 IEEE 802.15.4 cells (destination PAN ours/other/broadcast x link destination x IPv6 destination x UDP/echo x interface PAN set/unset). Each packet is injected with poll_ingress_single followed by one egress pass; socket deltas and emitted frames (parsed independently) are judged by the rules of the statement.",
+         "Trusted: the decision table in harness/src/mon/c11.rs, the independent builders/parsers in harness/src/indep. any_ip is off. 802.15.4 frames of the PAN part are built with smoltcp's own emitters (the oracle does not judge them). A UDP socket bound to a specific address also receiving broadcast/multicast datagrams is treated as matching its endpoint (documented behaviour of udp::Socket).",
+         "DESIGN.md §4 C11"),
  "C04": ("runtime monitor: scripted consistent peer (independent TCP codec) vs. one real socket; receiver model = bytes that arrived inside a window the socket advertised; every emitted ACK, every delivered byte and Finished are judged",
          "Exploration by runtime monitoring: 20 000 (quick) / 600 000 (thorough) scripted conversations of 20..400 events: segments placed left of, overlapping, inside, behind a hole, overrunning, at and beyond the advertised right edge, with/without FIN, duplicates, arbitrary ACK numbers and windows, ISNs near 2^31/2^32, receive buffers 1 B..70 000 B with and without window scaling, interleaved with reads. The monitor keeps the set S of bytes that arrived inside a window the socket had put on the wire; delivered bytes must equal the peer's bytes and stay within the contiguous prefix of S; every ACK number <= that prefix (+1 for an in-order in-window FIN); Finished only after every byte before the FIN.",
          "Trusted: harness/src/sim/tcp_peer.rs (receiver model, segment generator) and harness/src/indep (TCP/IP builder+parser). 'Advertised window' is the highest right edge ever put on the wire (weakest sound reading).",
